@@ -117,7 +117,7 @@ type c09world struct {
 	handler  slog.Handler
 	handler3 slog.Handler // three pending groups: derivations from it share whatever backing storage the handler keeps
 	bws      *zapcore.BufferedWriteSyncer
-	restore  func() // the restore function of a ReplaceGlobals made during set-up
+	restore  func()      // the restore function of a ReplaceGlobals made during set-up
 	common   []zap.Field // a field slice shared (read-only) by all tasks
 	locked   zapcore.WriteSyncer
 	combined zapcore.WriteSyncer
